@@ -36,6 +36,7 @@ type refOut struct {
 	// for known-finding signatures
 	unprovenCulprit bool // the evidence names a validator whose signature(s) in the conflicting commit do not verify
 	forward         bool
+	repeatedCulprit bool // the byzantine list is the provable one except that it names somebody more than once
 	wrongIndex      bool // duplicate-vote evidence whose only flaw is the (unsigned) validator index
 }
 
@@ -419,6 +420,19 @@ func (w *world) refLCA(e *types.LightClientAttackEvidence) refOut {
 	lib.SortByPower(proven)
 	lib.SortByPower(named)
 	if !sameValidatorList(e.ByzantineValidators, proven) {
+		// is it the provable list with somebody repeated (a validator listed several times in the forged set)?
+		uniq := map[string]bool{}
+		for _, c := range e.ByzantineValidators {
+			if c != nil {
+				uniq[string(c.Address)] = true
+			}
+		}
+		if len(uniq) == len(proven) && len(e.ByzantineValidators) > len(proven) {
+			out.repeatedCulprit = true
+			for _, p := range proven {
+				out.repeatedCulprit = out.repeatedCulprit && uniq[string(p.Address)]
+			}
+		}
 		// does it name somebody we cannot prove anything against?
 		for _, c := range e.ByzantineValidators {
 			found := false
